@@ -119,6 +119,27 @@ func serverScenarios() []*spxScenario {
 			}
 			return x
 		}},
+		{Name: "S17-partial-settings-vs-response", Role: "server", Build: func() *spxInst {
+			// SETTINGS frames that each carry one parameter (or none): whichever goroutine applies which
+			// subset, the encoder and the peer's limits have one owner
+			h := c19Server(harness.ServerOpts{})
+			x := &spxInst{s: h.S, srv: h}
+			x.start = func() {
+				x.startEnv(
+					&harness.EnvThread{Name: "peer", Steps: []harness.EnvStep{
+						{Kind: "inject", Bytes: frames(c19Req(h, 3, true))},
+						{Kind: "inject", Bytes: frames(peer.Settings(peer.Setting{ID: 1, Val: 100}))},
+						{Kind: "inject", Bytes: frames(c19Req(h, 5, true), peer.Settings(peer.Setting{ID: 5, Val: 20000}), peer.Settings())},
+						{Kind: "inject", Bytes: frames(peer.Settings(peer.Setting{ID: 1, Val: 4096}, peer.Setting{ID: 6, Val: 100000}))},
+					}},
+					&harness.EnvThread{Name: "handlers", Steps: []harness.EnvStep{
+						{Kind: "finish", Call: 1, Resp: harness.Resp{Status: 200, Headers: c19RespHdr, Body: []byte("one")}},
+						{Kind: "finish", Call: 2, Resp: harness.Resp{Status: 200, Headers: c19RespHdr, Body: []byte("two")}},
+					}},
+				)
+			}
+			return x
+		}},
 		{Name: "S2-reset-vs-handler", Role: "server", Build: func() *spxInst {
 			h := c19Server(harness.ServerOpts{})
 			x := &spxInst{s: h.S, srv: h}
